@@ -2,14 +2,14 @@
 From Coq Require Import List NArith Bool.
 From Frugal Require Import Bytes Wire Skip Values Desc Spec Encode Decode Checks Tags State Bitset Alloc DescMap Conc LegacyDefs.
 From Frugal.gen Require Import Params.
-From Frugal.proofs Require Import GenParams SkipPut Corollaries.
+From Frugal.proofs Require Import GenDecParams GenDepth SkipPut Corollaries.
 From Frugal.props Require Import Examples.
 Import ListNotations.
 
 (* any wire struct, whatever the field order, duplicates, unknown or retyped fields, whoever wrote
    it, followed by any trailing bytes: exact agreement with the reference decoder, value and length *)
 Theorem C03_decode_is_absorb : forall env pool sid fs rest dst,
-  params_ok = true -> env_ok env = true -> wf (WStruct fs []) = true ->
+  dec_params_ok = true -> env_ok env = true -> wf (WStruct fs []) = true ->
   (need env (TStruct sid) (WStruct fs []) <= S (N.to_nat maxDepthLimit))%nat ->
   (skipped_depth env (TStruct sid) (WStruct fs []) <= 63)%nat ->
   decode_object env pool sid (put (WStruct fs []) ++ rest) dst
@@ -19,13 +19,13 @@ Print Assumptions C03_decode_is_absorb.
 
 (* the depth side conditions hold for every message nested at most 48 levels *)
 Theorem C03_shallow : forall env pool sid fs rest dst,
-  params_ok = true -> env_ok env = true -> wf (WStruct fs []) = true -> (wdepth (WStruct fs []) <= 48)%nat ->
+  dec_params_ok = true -> depth_ok = true -> env_ok env = true -> wf (WStruct fs []) = true -> (wdepth (WStruct fs []) <= 48)%nat ->
   decode_object env pool sid (put (WStruct fs []) ++ rest) dst
   = top_dres (absorb_top env sid (WStruct fs []) dst) (len (put (WStruct fs []))) rest.
 Proof. exact shallow_exact. Qed.
 
 (* unknown fields are skipped over exactly *)
-Theorem C03_skip_exact : params_ok = true -> forall w rest, wf w = true ->
+Theorem C03_skip_exact : dec_params_ok = true -> forall w rest, wf w = true ->
   (wdepth w < N.to_nat gk_defaultRecursionDepth)%nat -> gk_skip (put w ++ rest) (code_of w) = SOk (len (put w)).
 Proof. exact gk_skip_put. Qed.
 
@@ -41,5 +41,5 @@ Proof. split; vm_compute; reflexivity. Qed.
 
 (* the side conditions on the generated constants and tables that the theorems above assume hold
    for what the translator read from the sources of this run *)
-Theorem C03_side_conditions : params_ok = true.
-Proof. exact params_ok_holds. Qed.
+Theorem C03_side_conditions : dec_params_ok = true /\ depth_ok = true.
+Proof. split; [exact dec_params_ok_holds | exact depth_ok_holds]. Qed.
